@@ -129,7 +129,7 @@ def main():
         run = obs['runs'][0]
         if obs['verdict'] != 'finished' or run['outcome'][0] != 'value' or ref['result'][0] != 'ok' or run['outcome'][1] != ref['result'][1]:
             problems.append('run did not finish with the reference value: verdict=%s outcome=%s' % (obs['verdict'], json.dumps(run['outcome'])[:120]))
-        res = model.run(spec, obs['actions'], obs['orders'], obs['descendants'], hyps=(2 if len(spec['nodes']) <= 9 else 1))
+        res = model.run(spec, obs['actions'], obs['orders'], obs['descendants'], hyps=(2 if len(spec['nodes']) <= 9 else 1), obs=obs)
         # hypotheses of C06_on_plain_programs on this program, with the orders recorded from the real chart (extracted model)
         if res.get('plain') and not res.get('ambiguous_orders'):
             st['plain_programs_runs'] += 1
